@@ -7,6 +7,7 @@ out=seeded/REGRESS.txt; tmp=$(mktemp -d)
 one() {
   d=$1; id=$(basename $d)
   prop=$(python3 -c "import json,sys;print(json.load(open('$d/meta.json'))['check']['command'].split()[1])")
+  if grep -q '"not_caught"' $d/meta.json; then echo "$id $prop NOT-CAUGHT (recorded as open, see meta.json and DESIGN 9.5)" > $tmp/$id.res; return; fi
   if grep -q '"superseded_by"' $d/meta.json; then echo "$id $prop SUPERSEDED (no longer breaks the property on the repaired tree, see meta.json)" > $tmp/$id.res; return; fi
   if ! git -C /repo apply --check /verif/$d/patch.diff 2>/dev/null; then echo "$id $prop NOAPPLY" > $tmp/$id.res; return; fi
   res=$(MUTLOG=$tmp/$id.log VERIF_WORKERS=6 tools/mutcheck.sh $prop /verif/$d/patch.diff quick 2>&1 | head -1)
